@@ -8,7 +8,7 @@ Contract (from the property statement), for every structure and every visit prog
   default_deep_copy_equal          default callbacks: iso(root, remap(root))
   default_shares_no_mutable        ... and no dict/list/set of the result is an object of the input
   input_not_mutated                identity/value snapshot of the whole input graph unchanged after every call
-  self_referential_terminates      every call returns within the per-structure alarm
+  self_referential_terminates      every call returns within the per-structure alarm (1 s for all calls on one structure)
   research_paths_retrievable       get_path(root, p) is v for every (p, v) of research(root) but the root's own
                                    report ((None,), root), which is not a nested item
 Reference: refmodels/remap_ref.py (recursive, memoised on id, written from the statement).
@@ -295,16 +295,20 @@ def run():
                                   'total (<= 3 per node), leaves {0,"x",None}, every aliasing pattern (a slot is a leaf, any existing node '
                                   'incl. an enclosing one, or a fresh node), dict keys "a",0,None by position; x (default callbacks + 8 '
                                   'visit programs) + research (default query) with get_path on every reported path',
-                            thorough='same with <= 5 container nodes and <= 5 item slots in total; research also with a leaves-only query'))
+                            thorough='<= 4 nodes with <= 5 slots in total, <= 5 nodes with <= 4 slots, and 5 nodes with 5 slots (<= 2 per node, no leaves); research also with a leaves-only query'))
     T = H.thorough
     # envelopes (max container nodes, max slots per node, max leaf slots, max slots in total): exhaustive within each;
-    # the thorough envelope contains the quick one, which is run first and skipped the second time
-    envelopes = [(4, 3, 3, 4)] + ([(5, 3, 3, 5)] if T else [])
+    # a structure that fits an earlier envelope is not evaluated again
+    envelopes = [(4, 3, 3, 4)] + ([(5, 3, 3, 4), (4, 3, 3, 5), (5, 2, 0, 5)] if T else [])
+
+    def fits(spec, env):
+        return (len(spec) <= env[0] and all(len(sl) <= env[1] for _, sl in spec)
+                and sum(s[0] == 'L' for _, sl in spec for s in sl) <= env[2] and sum(len(sl) for _, sl in spec) <= env[3])
     signal.signal(signal.SIGALRM, _on_alarm)
     stats = dict(specs=0, built=0, unconstructible=0, cyclic=0, shared=0)
     for ei, (mn, width, ml, ms) in enumerate(envelopes):
         for spec in gen_specs(mn, width, ml, ms):
-            if ei and len(spec) <= envelopes[0][0] and sum(len(sl) for _, sl in spec) <= envelopes[0][3]:
+            if ei and any(fits(spec, e) for e in envelopes[:ei]):
                 continue
             stats['specs'] += 1
             root = build(spec)
@@ -312,17 +316,17 @@ def run():
                 stats['unconstructible'] += 1
                 continue
             stats['built'] += 1
-            signal.setitimer(signal.ITIMER_REAL, 2.0)
+            signal.setitimer(signal.ITIMER_REAL, 1.0)
             try:
                 sc = check_structure(H, spec, root, stats['specs'], not T)
                 stats['cyclic'] += sc in ('cyclic structure', 'reference cycle passing through a tuple')
                 stats['shared'] += sc == 'shared sub-object'
             except Alarm:
                 H.fail('self_referential_terminates', 'remap', shape_class(root), spec_source(spec),
-                       'no result within 2 s', HDR + spec_source(spec) + 'remap(root)\n')
+                       'no result within 1 s', HDR + spec_source(spec) + 'remap(root)\n')
             finally:
                 signal.setitimer(signal.ITIMER_REAL, 0)
-            if stats['built'] % 256 == 0 and H.out_of_time(0.85):
+            if stats['built'] % 256 == 0 and H.out_of_time(0.85 if not T else 0.72):
                 H.note_truncated('enumeration stopped by time budget in envelope %d (max_nodes=%d) after %d structures'
                                  % (ei, mn, stats['built']))
                 break
